@@ -636,7 +636,7 @@ impl<'a> Gen<'a> {
     fn of_expr(&mut self, d: u32) -> E {
         let (s, syn) = self.pat_set();
         let a = self.anchor(d);
-        // un-anchored `N of` with N <= 0 is findings 6/11: only in the dedicated stream
+        // un-anchored `N of` with N = 0 used to be findings 6/11; negative N is undocumented and not generated here
         let min = if matches!(a, A::None) && !self.zero_of { 1 } else { 0 };
         let q = self.quant(s.len(), min, d);
         E::Of(q, s, syn, a)
